@@ -1252,8 +1252,11 @@ _BTree_setstate(BTree *self, PyObject *state, int noval)
         }
         else
         {
+            /* The child's memory layout is relied upon:  check the real
+             * type, not what __class__ claims (the pure-Python classes
+             * present themselves as their C counterparts). */
             if (!(SameType_Check(self, v) ||
-                  PyObject_IsInstance(v, (PyObject *)leaftype)))
+                  PyObject_TypeCheck(v, leaftype)))
             {
                 PyErr_Format(PyExc_TypeError,
                              "tree child %s is neither %s nor %s",
@@ -1272,7 +1275,7 @@ _BTree_setstate(BTree *self, PyObject *state, int noval)
     if (!firstbucket)
         firstbucket = (PyObject *)self->data->child;
 
-    if (!PyObject_IsInstance(firstbucket, (PyObject *)leaftype))
+    if (!PyObject_TypeCheck(firstbucket, leaftype))
     {
         PyErr_SetString(PyExc_TypeError,
                         "No firstbucket in non-empty BTree");
